@@ -150,6 +150,9 @@ def runtime_recursion_case(acc, c):
                     src = RUNTIME_RECURSION_SRC.format(caller_res=caller_res, other_res=other_res, mc=mc)
                     d = exec_source(src)["countdown"]
                     res = H.run_controlled(lambda: d(depth), is_async=False, watchdog=8.0)
+                    if res.outcome in ("hang", "spin") or res.forced:  # believed only when it happens twice
+                        d = exec_source(src)["countdown"]
+                        res = H.run_controlled(lambda: d(depth), is_async=False, watchdog=8.0)
                     acc.evaluations += 1
                     acc.mark_nontrivial(("runtime_recursion", caller_res, other_res, mc, depth))
                     case = dict(c, recursion=True, caller_res=caller_res, other_res=other_res, mc=mc, depth=depth)
@@ -185,6 +188,9 @@ def runtime_nested_case(acc, c):
                         def op():
                             return d(1)
                     res = H.run_controlled(op, is_async=is_async, watchdog=8.0)
+                    if res.outcome in ("hang", "spin") or res.forced:  # believed only when it happens twice
+                        d = exec_source(src)["outer"]
+                        res = H.run_controlled(op, is_async=is_async, watchdog=8.0)
                     acc.evaluations += 1
                     acc.mark_nontrivial(("runtime_nested", caller_res, inner_res, mc, is_async, with_setup))
                     case = dict(c, caller_res=caller_res, inner_res=inner_res, mc=mc, is_async=is_async, with_setup=with_setup)
